@@ -726,4 +726,86 @@ theorem add_table_ok_iff_margin (c : Cal) (a : Adj) (t n : Int) (hn : 2 ≤ n.na
       c.t0 ≤ c.adjust a t ∧ c.adjust a t ≤ c.t1 ∧ c.isB (c.adjust a t) = true ∧
       n ≤ cnt c (c.adjust a t + 1) c.t1 ∧ -n ≤ cnt c c.t0 (c.adjust a t - 1) := by
   rw [add_table_ok_iff c a t n hn, inRange_iff_margin]
+/-! ### the object boundary (review s3 §3, review4 v3 §C05.3-1): holidays and range endpoints arrive as objects with a time of day and
+`Calendar.__init__` floors them with `ymd` (defects C05-D2 `8faae3e`, C05-D3 `cff0dc3`).  The driver builds EVERY calendar through
+`mkCalT`; the theorems state the flooring through membership / intervals, not through `floorDay` itself. -/
+
+/-- the day an instant lies in, against the interval it is defined by (no division): `floorDay us = d` iff `d·DAYUS ≤ us < (d+1)·DAYUS` -/
+theorem floorDay_iff (us d : Int) : floorDay us = d ↔ d * DAYUS ≤ us ∧ us < (d + 1) * DAYUS := by
+  unfold floorDay DAYUS; omega
+
+theorem mkCal_floors (month : Int → Int) (raw we : List Int) (r0 r1 : Int) :
+    let c := mkCalT month { hol := some raw, weekend := some we, t0 := some r0, t1 := some r1 }
+    (∀ d, d ∈ c.hol ↔ ∃ x ∈ raw, d * DAYUS ≤ x ∧ x < (d + 1) * DAYUS)
+    ∧ (c.t0 * DAYUS ≤ r0 ∧ r0 < (c.t0 + 1) * DAYUS) ∧ (c.t1 * DAYUS ≤ r1 ∧ r1 < (c.t1 + 1) * DAYUS)
+    ∧ c.weekend = we ∧ c.hol.length = raw.length := by
+  intro c
+  refine ⟨fun d => ?_, (floorDay_iff r0 _).mp rfl, (floorDay_iff r1 _).mp rfl, rfl, ?_⟩
+  · show d ∈ raw.map floorDay ↔ _
+    simp only [List.mem_map]
+    constructor
+    · rintro ⟨x, hx, e⟩; exact ⟨x, hx, (floorDay_iff x d).mp e⟩
+    · rintro ⟨x, hx, e⟩; exact ⟨x, hx, (floorDay_iff x d).mpr e⟩
+  · show (raw.map floorDay).length = _
+    simp
+
+/-- the time of day of a holiday / of a range endpoint does not matter (C05-D2, C05-D3): two argument lists that agree day by day
+build the same calendar -/
+theorem mkCalT_tod_irrelevant (month : Int → Int) (we days tods tods' : List Int) (d0 d1 s0 s1 s0' s1' : Int)
+    (hl : tods.length = days.length) (hl' : tods'.length = days.length)
+    (ht : ∀ s ∈ tods, 0 ≤ s ∧ s < DAYUS) (ht' : ∀ s ∈ tods', 0 ≤ s ∧ s < DAYUS)
+    (h0 : 0 ≤ s0 ∧ s0 < DAYUS) (h1 : 0 ≤ s1 ∧ s1 < DAYUS) (h0' : 0 ≤ s0' ∧ s0' < DAYUS) (h1' : 0 ≤ s1' ∧ s1' < DAYUS) :
+    mkCalT month { hol := some (List.zipWith (fun d s => d * DAYUS + s) days tods), weekend := some we, t0 := some (d0 * DAYUS + s0), t1 := some (d1 * DAYUS + s1) }
+    = mkCalT month { hol := some (List.zipWith (fun d s => d * DAYUS + s) days tods'), weekend := some we, t0 := some (d0 * DAYUS + s0'), t1 := some (d1 * DAYUS + s1') }
+    ∧ mkCalT month { hol := some (List.zipWith (fun d s => d * DAYUS + s) days tods), weekend := some we, t0 := some (d0 * DAYUS + s0), t1 := some (d1 * DAYUS + s1) }
+    = mkCal month { hol := some days, weekend := some we, t0 := some d0, t1 := some d1 } := by
+  have fl : ∀ d s : Int, 0 ≤ s ∧ s < DAYUS → floorDay (d * DAYUS + s) = d := fun d s h => (floorDay_iff _ d).mpr (by unfold DAYUS at *; omega)
+  have key : ∀ (days tods : List Int), tods.length = days.length → (∀ s ∈ tods, 0 ≤ s ∧ s < DAYUS) →
+      (List.zipWith (fun d s => d * DAYUS + s) days tods).map floorDay = days := by
+    intro days
+    induction days with
+    | nil => intro tods _ _; simp
+    | cons d ds ih =>
+      intro tods hl ht
+      match tods, hl, ht with
+      | s :: ss, hl, ht =>
+        simp only [List.zipWith_cons_cons, List.map_cons, List.cons.injEq]
+        exact ⟨fl d s (ht s (by simp)), ih ss (by simpa using hl) (fun x hx => ht x (by simp [hx]))⟩
+  have e : ∀ tods s0 s1, tods.length = days.length → (∀ s ∈ tods, 0 ≤ s ∧ s < DAYUS) → (0 ≤ s0 ∧ s0 < DAYUS) → (0 ≤ s1 ∧ s1 < DAYUS) →
+      mkCalT month { hol := some (List.zipWith (fun d s => d * DAYUS + s) days tods), weekend := some we, t0 := some (d0 * DAYUS + s0), t1 := some (d1 * DAYUS + s1) }
+      = mkCal month { hol := some days, weekend := some we, t0 := some d0, t1 := some d1 } := by
+    intro tods s0 s1 hl ht h0 h1
+    simp only [mkCalT, CalArgs.floor, Option.map_some, key days tods hl ht, fl d0 s0 h0, fl d1 s1 h1]
+  exact ⟨(e tods s0 s1 hl ht h0 h1).trans (e tods' s0' s1' hl' ht' h0' h1').symm, e tods s0 s1 hl ht h0 h1⟩
+
+/-- observed through `is_bday`: on a calendar built from objects with a time of day, `t` is a business day iff it is no weekend day and
+NO holiday instant lies anywhere in the day `t` (a holiday is a DAY: C05-D2), and the business-day table runs from the day of `t0` to
+the day of `t1` (C05-D3) -/
+theorem isB_of_instants (month : Int → Int) (raw we : List Int) (r0 r1 t : Int) :
+    let c := mkCalT month { hol := some raw, weekend := some we, t0 := some r0, t1 := some r1 }
+    (c.isB t = true ↔ wd t ∉ we ∧ ∀ x ∈ raw, ¬ (t * DAYUS ≤ x ∧ x < (t + 1) * DAYUS))
+    ∧ (t ∈ c.bdays ↔ (t + 1) * DAYUS > r0 ∧ t * DAYUS ≤ r1 ∧ c.isB t = true) := by
+  intro c
+  have hf := mkCal_floors month raw we r0 r1
+  constructor
+  · rw [isB_spec, hf.1 t]
+    constructor
+    · rintro ⟨h1, h2⟩; exact ⟨h1, fun x hx hh => h2 ⟨x, hx, hh⟩⟩
+    · rintro ⟨h1, h2⟩; exact ⟨h1, fun ⟨x, hx, hh⟩ => h2 x hx hh⟩
+  · rw [mem_bdays]
+    have a := hf.2.1; have b := hf.2.2.1
+    have e0 : c.t0 ≤ t ↔ (t + 1) * DAYUS > r0 := by
+      change (mkCalT month _).t0 ≤ t ↔ _
+      unfold DAYUS at *; constructor <;> intro h <;> omega
+    have e1 : t ≤ c.t1 ↔ t * DAYUS ≤ r1 := by
+      change t ≤ (mkCalT month _).t1 ↔ _
+      unfold DAYUS at *; constructor <;> intro h <;> omega
+    rw [e0, e1]
+
+-- the instances of the two fixed defects: a holiday handed over at 09:30 / as the last microsecond of its day, a range that starts at 09:00
+example :
+    let c := mkCalT ymKey { hol := some [737425 * DAYUS + 34200000000, 737426 * DAYUS + (DAYUS - 1)], weekend := some [5, 6],
+                            t0 := some (737394 * DAYUS + 32400000000), t1 := some (737456 * DAYUS + 63000000000) }
+    c.hol = [737425, 737426] ∧ c.t0 = 737394 ∧ c.t1 = 737456 ∧ c.isB 737425 = false ∧ c.isB 737427 = true := by decide
+
 end Pyg.Props.C05
